@@ -1048,3 +1048,56 @@ Proof.
   exists false, 2, f24_purge_witness. split; [reflexivity|]. split; [vm_compute; congruence|].
   vm_compute. discriminate.
 Qed.
+
+(* ---- without the scheduling hypothesis: the run is the unlimited list on the effective label list ---- *)
+Lemma run_refines_effective : forall c ls s g, Inv c s g -> cfg_ok c ->
+  wf_client_from g (effective ls (snd (q_run c s ls))) = true -> hyps_safety_from c s ls = true ->
+  let ls' := effective ls (snd (q_run c s ls)) in
+  effective_outs ls (snd (q_run c s ls)) = snd (spec_run (g_list g) ls') /\
+  q_abs (fst (q_run c s ls)) = fst (spec_run (g_list g) ls') /\
+  qlen (fst (q_run c s ls)) = Z.of_nat (length (fst (spec_run (g_list g) ls'))).
+Proof.
+  intros c. induction ls as [| lab t IH]; intros s g I Hc Hw Hh.
+  - cbn. destruct I. repeat split; try reflexivity; assumption.
+  - cbn [hyps_safety_from] in Hh. apply andb_true_iff in Hh. destruct Hh as [Hh1 Hh2].
+    cbn [q_run] in *.
+    destruct (q_step c s lab) as [s1 o] eqn:E1. cbn [fst] in Hh2.
+    destruct (q_run c s1 t) as [s2 os] eqn:E2. cbn [fst snd] in *.
+    assert (Hcases : (lab = Pop /\ o = OPop None /\ s1 = s) \/
+                     (effective (lab :: t) (o :: os) = lab :: effective t os /\
+                      effective_outs (lab :: t) (o :: os) = o :: effective_outs t os /\ hyp_step c s lab = true)).
+    { destruct lab as [id p | | id p | id p | | | b]; cbn [q_step] in E1.
+      - inversion E1; subst. right. repeat split; reflexivity || exact Hh1.
+      - unfold q_pop in E1. destruct (mem s) as [| x m'] eqn:Em.
+        + inversion E1; subst. left. repeat split.
+        + inversion E1; subst. right. repeat split. cbn [hyp_step]. rewrite Em. reflexivity.
+      - inversion E1; subst. right. repeat split; reflexivity || exact Hh1.
+      - inversion E1; subst. right. repeat split; reflexivity || exact Hh1.
+      - unfold q_purge in E1. inversion E1; subst. right. repeat split; reflexivity || exact Hh1.
+      - inversion E1; subst. right. repeat split; reflexivity || exact Hh1.
+      - inversion E1; subst. right. repeat split; reflexivity || exact Hh1. }
+    destruct Hcases as [(El & Eo & Es) | (Ee & Eeo & Hhs)].
+    + subst. cbn [effective effective_outs] in *.
+      specialize (IH s g I Hc). rewrite E2 in IH. cbn [fst snd] in IH. apply IH; assumption.
+    + rewrite Ee in *. rewrite Eeo. cbn [wf_client_from] in Hw. apply andb_true_iff in Hw. destruct Hw as [Hw1 Hw2].
+      destruct (step_all c s g lab I Hc Hw1 Hhs) as (I' & Eout & Elist). rewrite E1 in I', Eout. cbn [fst snd] in I', Eout.
+      specialize (IH s1 (ghost_step g lab) I' Hc). rewrite E2 in IH. cbn [fst snd] in IH.
+      specialize (IH Hw2 Hh2). rewrite Elist in IH.
+      cbn [spec_run]. destruct (spec_step (g_list g) lab) as [l1 o'] eqn:E3. cbn [fst snd] in *.
+      destruct (spec_run l1 (effective t os)) as [l2 os']. cbn [fst snd] in *.
+      destruct IH as (A & B & C). subst. repeat split; assumption.
+Qed.
+
+Lemma order_exactly_once_partial : forall c ls,
+  let r := q_run c q_init ls in
+  let ls' := effective ls (snd r) in
+  wf_client ls' = true -> no_findings_safety c ls = true ->
+  effective_outs ls (snd r) = snd (spec_run [] ls') /\
+  q_abs (fst r) = fst (spec_run [] ls') /\
+  qlen (fst r) = Z.of_nat (length (fst (spec_run [] ls'))).
+Proof.
+  intros c ls r ls' Hw Hn. unfold no_findings_safety in Hn.
+  apply andb_true_iff in Hn. destruct Hn as [Hn H3]. apply andb_true_iff in Hn. destruct Hn as [H1 H2].
+  apply N.leb_le in H1. apply N.ltb_lt in H2.
+  exact (run_refines_effective c ls q_init ghost_init (inv_init c) (conj H1 H2) Hw H3).
+Qed.
